@@ -32,11 +32,7 @@ pub fn prop() -> Prop {
         },
         generate,
         exec,
-        shrink: |s| {
-            let mut g = generic_shrink(s);
-            g.retain(|c| c.phases.len() == s.phases.len());
-            g
-        },
+        shrink: generic_shrink,
         rule: "one evaluation = one re-execution of a world with one crash/restart point (a node, right after it handled one specific message or its local start action), compared output by output with the uninterrupted baseline; per world ALL single crash points are enumerated, plus multi-crash subsets, plus reload-after-every-transition; worlds: key generation, distributed refresh, dealer refresh, signing (plain, re-randomised, Taproot-tweaked), repair; storage format binary or JSON; plus preprocess(k) nonces round-tripped before signing; non-trivial = all crash points of a world done; distinct = (suite, world kind, n, t, wire, crash point) hashed and counted",
         distinct_measure: "hash of (scenario shape, crash point)",
         assumptions: &["a crash happens between transitions (handle -> persist -> send is atomic in the glue)", "no integrity fault on the store: the property promises nothing about damaged state", "randomness is named per (node, instance, call site), so a restart does not shift anybody's random stream"],
